@@ -145,16 +145,6 @@ Definition index (data : bytes) (i : nat) : res N :=
 Definition read_full (k : nat) (r : bytes) : res (bytes * bytes) :=
   if (k <=? length r)%nat then Ok (firstn k r, skipn k r) else Err.
 
-(* bytes.Reader.Read(buf) with len(buf) = k: io.EOF when nothing is unread
-   (also for k = 0), otherwise copies min(k, unread) bytes without error;
-   the buffer was zero-initialised by the callers *)
-Definition reader_read (k : nat) (r : bytes) : res (bytes * bytes) :=
-  match r with
-  | [] => Err
-  | _ => let got := firstn k r in
-         Ok (got ++ repeat 0 (k - length got), skipn k r)
-  end.
-
 (* binary.PutUvarint *)
 Fixpoint put_uvarint_fuel (fuel : nat) (x : N) : bytes :=
   match fuel with
@@ -185,12 +175,17 @@ Definition write_chunk (data : bytes) : bytes :=
 
 Definition read_chunk (r : bytes) : res (bytes * bytes) :=
   '(n, r1) <- read_uvarint r ;;
+  (* before - r.Len() != PutUvarint(scratch, length): not minimally encoded *)
+  _ <- guard (length r - length r1 =? length (put_uvarint n))%nat ;;
   if chunkSizeLimit <? n then Err
   else if N.of_nat (length r1) <? n then Err
   else match r1 with
        | [] => Err                             (* r.Read(data) at EOF, n = 0 *)
        | _ => Ok (firstn (N.to_nat n) r1, skipn (N.to_nat n) r1)
        end.
+
+(* "if reader.Len() != 0 { error: trailing bytes }" *)
+Definition no_trailing (r : bytes) : res unit := guard (length r =? 0)%nat.
 
 (* encoding.go writeFixedBigInt: copy(tmp[byteLen-len(value):], value) panics
    when v.Bytes() is longer than byteLen, i.e. v >= 256^byteLen *)
@@ -278,13 +273,14 @@ Definition decodeOTSetup (c : curve) (r : bytes) : res (bytes * N * N * bytes) :
   '(y, r3) <- read_fixed (byteLen c) r2 ;;
   Ok (name, x, y, r3).
 
-(* DecodeRound1: bytes after the OT setup are not looked at *)
+(* DecodeRound1 *)
 Definition DecodeRound1 (c : curve) (data : bytes) : res round1 :=
   '(magic, r1) <- read_full 2 data ;;
   _ <- guard (bytes_eqb magic magicRound1) ;;
   '(sid, r2) <- read_full 8 r1 ;;
-  '(name, x, y, _) <- decodeOTSetup c r2 ;;
+  '(name, x, y, rest) <- decodeOTSetup c r2 ;;
   _ <- guard (bytes_eqb name (curve_name c)) ;;
+  _ <- no_trailing rest ;;
   Ok (mkR1 (of_be_s sid) name x y).
 
 (* ---------- Round 2 ---------- *)
@@ -433,12 +429,12 @@ Definition EncodeGarblerSession (c : curve) (s : gsession) : res bytes :=
   setup <- encodeCOSenderSetup c s ;;
   Ok (magicGarblerSession ++ be_s 8 (gs_sid s) ++ write_chunk setup).
 
-(* decodeCOSenderSetup: a fresh reader over the chunk; bytes after the five
-   fields are not looked at *)
+(* decodeCOSenderSetup: a fresh reader over the chunk *)
 Definition decodeCOSenderSetup (c : curve) (sid : N) (data : bytes) : res gsession :=
   '(name, r1) <- read_chunk data ;;
   _ <- guard (bytes_eqb name (curve_name c)) ;;
-  '(fs, _) <- read_fixed_list (byteLen c) 5 r1 ;;
+  '(fs, rest) <- read_fixed_list (byteLen c) 5 r1 ;;
+  _ <- no_trailing rest ;;
   match fs with
   | [s; ax; ay; ix; iy] => Ok (mkGS sid name s ax ay ix iy)
   | _ => Err
@@ -448,7 +444,8 @@ Definition DecodeGarblerSession (c : curve) (data : bytes) : res gsession :=
   '(magic, r1) <- read_full 2 data ;;
   _ <- guard (bytes_eqb magic magicGarblerSession) ;;
   '(sid, r2) <- read_full 8 r1 ;;
-  '(chunk, _) <- read_chunk r2 ;;
+  '(chunk, rest) <- read_chunk r2 ;;
+  _ <- no_trailing rest ;;
   decodeCOSenderSetup c (of_be_s sid) chunk.
 
 (* ---------- evaluator session ---------- *)
@@ -467,14 +464,14 @@ Definition EncodeEvaluatorSession (c : curve) (s : esession) : res bytes :=
   data <- encodeChoiceBundle c s ;;
   Ok (magicEvalSession ++ be_s 8 (es_sid s) ++ write_chunk data).
 
-(* decodeChoiceBundle: the bit bytes are fetched with a single
-   bytes.Reader.Read, which returns fewer bytes without an error *)
+(* decodeChoiceBundle *)
 Definition decodeChoiceBundle (c : curve) (sid : N) (data : bytes) : res esession :=
   '(name, r1) <- read_chunk data ;;
   _ <- guard (bytes_eqb name (curve_name c)) ;;
   '(a, r2) <- read_fixed_list (byteLen c) 2 r1 ;;
   '(scalars, r3) <- read_fixed_list (byteLen c) evaluatorCiphertextCount r2 ;;
-  '(raw, _) <- reader_read evaluatorChoiceSignBytes r3 ;;
+  '(raw, rest) <- read_full evaluatorChoiceSignBytes r3 ;;
+  _ <- no_trailing rest ;;
   let bits := bytesToBitsLittle raw in
   _ <- guard (evaluatorCiphertextCount <=? length bits)%nat ;;
   Ok (mkES sid name (nth 0 a 0) (nth 1 a 0) scalars (firstn evaluatorCiphertextCount bits)).
@@ -483,7 +480,8 @@ Definition DecodeEvaluatorSession (c : curve) (data : bytes) : res esession :=
   '(magic, r1) <- read_full 2 data ;;
   _ <- guard (bytes_eqb magic magicEvalSession) ;;
   '(sid, r2) <- read_full 8 r1 ;;
-  '(chunk, _) <- read_chunk r2 ;;
+  '(chunk, rest) <- read_chunk r2 ;;
+  _ <- no_trailing rest ;;
   decodeChoiceBundle c (of_be_s sid) chunk.
 
 (* ====================================================================== *)
